@@ -8,5 +8,5 @@ CONSTANTS
   FixF13 = TRUE
   FixF12 = TRUE
   FixV0 = TRUE
-INVARIANTS TypeOK DocumentedKeysOnly RequiredKeysPresent TypePerKind SnapshotsIff SnapshotKeys ObjectOmittedIff FilterResultIff FilterResultIsJqOfObject SnapshotsAreCurrent EventObjectIsEventTime NoCrash Emit
+INVARIANTS TypeOK DocumentedKeysOnly RequiredKeysPresent TypePerKind SnapshotsIff SnapshotKeys ObjectOmittedIff FilterResultIff FilterResultIsJqOfObject SnapshotsAreCurrent SnapshotsBeforeEnable EventObjectIsEventTime NoCrash Emit
 CHECK_DEADLOCK FALSE
